@@ -190,12 +190,12 @@ impl<'a, D: DependencyProvider> Encoder<'a, D> {
         }
 
         // Add clauses for externally excluded candidates.
+        // Note that an excluded candidate can already be part of the partial
+        // solution: a soft requirement names a solvable directly, before the
+        // candidates of its package are known. `add_exclusion_clause` reports
+        // the clause as conflicting in that case.
         for &(solvable, reason) in &package_candidates.excluded {
-            let variable = self.add_exclusion_clause(solvable.into(), reason);
-            debug_assert!(
-                self.state.decision_tracker.assigned_value(variable) != Some(true),
-                "it cannot be possible that the excluded candidate is already uninstallable"
-            )
+            self.add_exclusion_clause(solvable.into(), reason);
         }
     }
 
